@@ -125,10 +125,12 @@ class CallMixin(object):
             cls = None
             recv = None
         short = fdef.name
-        callee = self.spec.callees.get(qual) or self.spec.callees.get(short)
-        if callee is None and tag == 'classfn':
-            # contract keyed by the *static* class the call names (e.g. USINT.produce)
+        callee = None
+        if tag == 'classfn':
+            # contract keyed by the *static* class the call names (e.g. route_path.produce) takes precedence
             callee = self.spec.callees.get('%s.%s' % (impl[1].name, fdef.name))
+        if callee is None:
+            callee = self.spec.callees.get(qual) or self.spec.callees.get(short)
         if callee is not None:
             if not hasattr(callee, 'params'):
                 self.called.add('custom:' + qual)
@@ -937,6 +939,17 @@ class CallMixin(object):
                 items.append(TupV([ConstV(k), v]))
             yield st, PyListV(items)
             return
+        if name == 'update' and len(args) == 1 and isinstance(args[0], RefV) and args[0].kind == 'rec':
+            src = args[0]
+            keys = st.heap.get((src.id, '__keys__'), ())
+            s = st
+            for k in keys:
+                p, v = st.heap[(src.id, k)]
+                if not z3.is_true(z3.simplify(p)):
+                    raise Unsupported('.update() from a record with optional fields')
+                s = self.rec_set(s, ref, k, v, line)
+            yield s, NONE
+            return
         raise Unsupported('record method .%s at line %s' % (name, line))
 
     def list_method(self, ref, name, args, kw, st, n):
@@ -1083,6 +1096,8 @@ class CallMixin(object):
 
     def join(self, sep, items, st, n):
         sepc = sep.py if isinstance(sep, ConstV) else None
+        if isinstance(sep, SeqV) and const_of(z3.Length(sep.t)) == 0:
+            sepc = b'' if sep.kind in ('bytes', 'bytearray') else ''
         items = self.deref_list(items, st)
         if sepc is not None and len(sepc) == 0 and isinstance(items, (PyListV, TupV)):
             kind = 'bytes' if isinstance(sepc, bytes) else 'str'
